@@ -140,7 +140,23 @@ func runRaceStage(prop string, seed uint64, tier string) ([]*Violation, map[stri
 	cmd.Env = append(os.Environ(), "GORACE=halt_on_error=1 exitcode=66", "GOMAXPROCS=16")
 	var so, se bytes.Buffer
 	cmd.Stdout, cmd.Stderr = &so, &se
-	err := cmd.Run()
+	limit := 4 * time.Minute
+	if tier == "thorough" {
+		limit = 45 * time.Minute
+	}
+	var err error
+	if serr := cmd.Start(); serr != nil {
+		return nil, nil, fmt.Errorf("race stage: %v", serr)
+	}
+	done := make(chan error, 1)
+	go func() { done <- cmd.Wait() }()
+	select {
+	case err = <-done:
+	case <-time.After(limit):
+		cmd.Process.Kill()
+		<-done
+		return nil, nil, fmt.Errorf("race stage: watchdog: not finished after %v (killed)", limit)
+	}
 	info := map[string]any{"free_running": map[string]any{
 		"what": "the same task scripts run by 16 goroutines with real parallelism in a -race build; NOT simulated, schedule uncontrolled", "rounds": rounds, "wall_s": time.Since(t0).Seconds(), "race_reports": 0}}
 	code := 0
